@@ -5,6 +5,7 @@ import (
 	"sort"
 	"strings"
 	"text/template"
+	"unicode"
 
 	"golang.org/x/text/cases"
 	"golang.org/x/text/language"
@@ -334,7 +335,7 @@ func StructName(tableName string) string {
 func fieldType(tableName, columnName string, column *ovsdb.ColumnSchema, enumTypes bool) string {
 	switch column.Type {
 	case ovsdb.TypeEnum:
-		if enumTypes {
+		if enumTypes && FieldEnum(tableName, columnName, column) != nil {
 			return enumName(tableName, columnName)
 		}
 		return AtomicType(column.TypeObj.Key.Type)
@@ -385,6 +386,10 @@ func FieldTypeWithEnums(tableName, columnName string, column *ovsdb.ColumnSchema
 // FieldEnum returns the Enum if the column is an enum type
 func FieldEnum(tableName, columnName string, column *ovsdb.ColumnSchema) *Enum {
 	if column.TypeObj == nil || column.TypeObj.Key.Enum == nil {
+		return nil
+	}
+	if column.TypeObj.Key.Type != ovsdb.TypeString {
+		// named constants can only be generated for strings
 		return nil
 	}
 	return &Enum{
@@ -457,7 +462,9 @@ var initialisms = map[string]bool{
 func camelCase(field string) string {
 	s := strings.ToLower(field)
 	parts := strings.FieldsFunc(s, func(r rune) bool {
-		return r == '_' || r == '-'
+		// anything that can not be part of an identifier separates words
+		// (enum values are arbitrary strings)
+		return !unicode.IsLetter(r) && !unicode.IsDigit(r)
 	})
 	if len(parts) > 1 {
 		s = ""
@@ -494,7 +501,7 @@ func printVal(v interface{}, t string) string {
 	case "bool":
 		return fmt.Sprintf(`%t`, v)
 	case "string":
-		return fmt.Sprintf(`"%s"`, v)
+		return fmt.Sprintf(`%q`, v)
 	}
 	return ""
 }
